@@ -29,4 +29,70 @@ theorem mixBody (h1 h2 k1 k2 : BitVec 64) :
   rw [rotl _ 0x1f#8 (by decide), rotl _ 0x1b#8 (by decide), rotl _ 0x21#8 (by decide), rotl _ 0x1f#8 (by decide)]
   rfl
 
+
+theorem getD_map (l : List UInt8) (i : Nat) :
+    (l.map (·.toBitVec)).getD i 0#8 = (l.getD i 0).toBitVec := by
+  simp [List.getD_eq_getElem?_getD, List.getElem?_map]
+
+theorem getD_map' (l : List UInt8) (i : Nat) :
+    ((l.map (·.toBitVec))[i]?).getD 0#8 = (l.getD i 0).toBitVec := by
+  simp [List.getD_eq_getElem?_getD, List.getElem?_map]
+
+theorem rotl33 (x : BitVec 64) : Gen.Murmur.rotl x 33#8 = Murmur.rotl x 33 := rotl x 33#8 (by decide)
+theorem rotl31 (x : BitVec 64) : Gen.Murmur.rotl x 31#8 = Murmur.rotl x 31 := rotl x 31#8 (by decide)
+
+/-- what the switch leaves in (k2, h2, k1, h1) according to the model -/
+def swModel (tl : List UInt8) (n : Nat) (h1 h2 : BitVec 64) : BitVec 64 × BitVec 64 × BitVec 64 × BitVec 64 :=
+  let r := Murmur.mixTail (h1, h2) (Murmur.tailK1 tl n) (Murmur.tailK2 tl n) n
+  (if n ≥ 9 then Murmur.rotl (Murmur.tailK2 tl n * Murmur.c2) 33 * Murmur.c1 else 0#64, r.2,
+   if n ≥ 1 then Murmur.rotl (Murmur.tailK1 tl n * Murmur.c1) 31 * Murmur.c2 else 0#64, r.1)
+
+local macro "sw_case" : tactic =>
+  `(tactic| (unfold Gen.Murmur.Murmur3H1_tailFinish_sw1 swModel
+             simp [Murmur.mixTail, Murmur.tailK1, Murmur.tailK2, Murmur.tb, getD_map', block, rotl33, rotl31,
+               Murmur.c1, Murmur.c2]))
+
+theorem tailSwitch (tl : List UInt8) (n : Nat) (hn : n < 16) (h1 h2 : BitVec 64) :
+    Gen.Murmur.Murmur3H1_tailFinish_sw1 (BitVec.ofNat 64 n) h1 h2 0#64 0#64 (tl.map (·.toBitVec))
+      = swModel tl n h1 h2 := by
+  match n, hn with
+  | 0, _ => sw_case
+  | 1, _ => sw_case
+  | 2, _ => sw_case
+  | 3, _ => sw_case
+  | 4, _ => sw_case
+  | 5, _ => sw_case
+  | 6, _ => sw_case
+  | 7, _ => sw_case
+  | 8, _ => sw_case
+  | 9, _ => sw_case
+  | 10, _ => sw_case
+  | 11, _ => sw_case
+  | 12, _ => sw_case
+  | 13, _ => sw_case
+  | 14, _ => sw_case
+  | 15, _ => sw_case
+  | k + 16, h => exact absurd h (by omega)
+
+/-- the tail and finalisation of `Murmur3H1` (`tail := data[nBlocks*16:]` … `return h1`): the model's
+    `mixTail` of `tailK1`/`tailK2`, then `finish`; for every input below 2^60 bytes, every state of the block loop -/
+theorem tailFinish (data : List UInt8) (h1 h2 k1 k2 : BitVec 64) (hl : data.length < 2^60) :
+    Gen.Murmur.tailFinish (data.map (·.toBitVec)) (BitVec.ofNat 64 data.length) h1 h2 k1 k2
+        (BitVec.ofNat 64 (data.length / 16))
+      = Murmur.finish (Murmur.mixTail (h1, h2)
+          (Murmur.tailK1 (data.drop (data.length / 16 * 16)) (data.length % 16))
+          (Murmur.tailK2 (data.drop (data.length / 16 * 16)) (data.length % 16)) (data.length % 16)) data.length := by
+  have hK : ((BitVec.ofNat 64 (data.length / 16)) * 0x10#64).toNat = data.length / 16 * 16 := by
+    simp [BitVec.toNat_mul]; omega
+  have hT : (BitVec.ofNat 64 data.length &&& 0xf#64) = BitVec.ofNat 64 (data.length % 16) := by
+    apply BitVec.eq_of_toNat_eq
+    have : (15 : Nat) = 2^4 - 1 := rfl
+    simp [BitVec.toNat_and]
+    rw [this, Nat.and_two_pow_sub_one_eq_mod]
+    omega
+  unfold Gen.Murmur.tailFinish
+  simp only [hK, hT, ← List.map_drop]
+  rw [tailSwitch _ _ (Nat.mod_lt _ (by decide))]
+  simp [swModel, Murmur.finish, fmix]
+
 end GenTie.C09
